@@ -61,6 +61,13 @@ func sameErr(a, b error) bool {
 	return a == b
 }
 
+func b2i(b bool) int {
+	if b {
+		return 1
+	}
+	return 0
+}
+
 func asRec(n eventlogger.Node) *recNode {
 	if w, ok := n.(*wrapRec); ok {
 		return w.inner
@@ -621,6 +628,13 @@ func (h *regHarness) exec(line string) string {
 			nids = append(nids, nid(atoi(x)))
 		}
 		before := h.observable()
+		// the thresholds of every event type that has them (a failed call changes nothing of this)
+		thrBefore := map[int][4]int{}
+		for t := range h.graphs {
+			n1, ok1 := h.b.SuccessThreshold(tyS(t))
+			n2, ok2 := h.b.SuccessThresholdSinks(tyS(t))
+			thrBefore[t] = [4]int{n1, b2i(ok1), n2, b2i(ok2)}
+		}
 		want := h.specAccept(ty, pid, ids, pol)
 		err := h.b.RegisterPipeline(eventlogger.Pipeline{PipelineID: pidS(pid), EventType: tyS(ty), NodeIDs: nids}, polOpt(pol, false)...)
 		r := classify(err)
@@ -651,6 +665,13 @@ func (h *regHarness) exec(line string) string {
 		}
 		if h.observable() != before {
 			h.oracle("C05 failed RegisterPipeline changed observable state")
+		}
+		for t, was := range thrBefore {
+			n1, ok1 := h.b.SuccessThreshold(tyS(t))
+			n2, ok2 := h.b.SuccessThresholdSinks(tyS(t))
+			if now := [4]int{n1, b2i(ok1), n2, b2i(ok2)}; now != was && h.graphs[t] {
+				h.oracle("C05 a failed RegisterPipeline(%d,%d,…) changed the success thresholds of event type %d from %v to %v (value, known, sinks value, known)", ty, pid, t, was, now)
+			}
 		}
 		if r != "E_INVALID" && r != "E_BAD_POLICY" {
 			h.graphs[ty] = true // residue: the graph exists from now on
@@ -1052,6 +1073,57 @@ func registryAlphabet() []string {
 	}
 }
 
+// policyProbe: policy sequences per id on a scratch broker in which an id is also re-registered with
+// the SAME node instance (an application registering its nodes again, "sealing" them with a second,
+// DenyOverwrite registration, or retrying): the rule is about ids and policies, not about which
+// object is passed.  Oracle from the statement of C07 only (no model): a registration succeeds iff its
+// policy values are valid and the id is not held under DenyOverwrite; the policy of the last
+// successful registration applies from there on; a removal lifts it.
+func (h *regHarness) policyProbe(p *prng) {
+	b, _ := eventlogger.NewBroker()
+	type held struct {
+		n    *recNode
+		deny bool
+	}
+	cur := map[int]*held{}
+	var hist []string
+	inst := 1000000
+	for step := 0; step < 4+p.intn(10); step++ {
+		id := 1 + p.intn(2)
+		switch k := p.intn(10); {
+		case k < 8:
+			pol := pick(p, []string{"dflt", "allow", "deny", "deny", "invalid", "invalidc"})
+			var n *recNode
+			same := cur[id] != nil && p.chance(1, 2)
+			if same {
+				n = cur[id].n
+			} else {
+				inst++
+				n = &recNode{inst: inst, ty: eventlogger.NodeTypeFilter, beh: "pass", h: h}
+			}
+			hist = append(hist, fmt.Sprintf("RegisterNode(%d, same-instance=%v, %s)", id, same, pol))
+			err := b.RegisterNode(nid(id), n, polOpt(pol, true)...)
+			want := effPol(pol) != "invalid" && !(cur[id] != nil && cur[id].deny)
+			if want != (err == nil) {
+				h.oracle("C07 %s returned %v, the statement says success=%v (history: %s)", hist[len(hist)-1], err, want, strings.Join(hist, "; "))
+				return
+			}
+			if err == nil {
+				cur[id] = &held{n, effPol(pol) == "deny"}
+			}
+		default:
+			hist = append(hist, fmt.Sprintf("RemoveNode(%d)", id))
+			err := b.RemoveNode(context.Background(), nid(id))
+			if (err == nil) != (cur[id] != nil) {
+				h.oracle("C07 %s returned %v although registered=%v (history: %s)", hist[len(hist)-1], err, cur[id] != nil, strings.Join(hist, "; "))
+				return
+			}
+			delete(cur, id)
+		}
+	}
+	h.st.hit("policy-probe")
+}
+
 func registryMain(args []string) {
 	fs := flag.NewFlagSet("registry", flag.ExitOnError)
 	seed := fs.Uint64("seed", 1, "seed")
@@ -1167,6 +1239,9 @@ func registryMain(args []string) {
 				maxLen = 60
 			}
 			runCase(genRegistryCase(p, mal, maxLen), kind)
+			if i%4 == 0 {
+				h.policyProbe(p)
+			}
 		}
 	}
 	o.close()
